@@ -162,8 +162,9 @@ Definition with_dead (m : mstate) (fams creds : list nat) : mstate :=
 Fixpoint dead_ok_from (m : mstate) (i : nat) (cs : list cinfo) (probes : list (option payload)) : bool :=
   match cs, probes with
   | c :: cs', p :: ps' =>
-      (* a dead family covers the tokens minted by the token endpoint; individually retired credentials of any kind *)
-      (if (match ci_kind c with KAccess | KRefresh => memn (ci_family c) (m_dead m) | _ => false end) || memn i (m_dead_creds m)
+      (* a dead family covers every access and refresh token of the grant, the authorization endpoint's included;
+         individually retired credentials of any kind *)
+      (if (match ci_kind c with KAccess | KRefresh | KImplicit => memn (ci_family c) (m_dead m) | _ => false end) || memn i (m_dead_creds m)
        then match p with None => true | Some _ => false end
        else true) && dead_ok_from m (S i) cs' ps'
   | _, _ => true
